@@ -20,10 +20,15 @@ case "$ID" in
 esac
 build_vcheck "$SCR" $FLAGS > "$SCR/build.log" 2>&1 || { echo "INFRASTRUCTURE: instrumented copy does not build" >&2; tail -20 "$SCR/build.log" >&2; exit 2; }
 mkdir -p evidence replays
+EVID="$PWD/evidence"; REPL="$PWD/replays"
+if [ "$VERIF_SRC" != /repo ]; then
+  # a run against something else than /repo (own mutants, seeded changes) must not overwrite the evidence of /repo
+  EVID="$PWD/evidence/_alt"; REPL="$PWD/replays/_alt"; mkdir -p "$EVID" "$REPL"
+fi
 if [ "$TIER" = thorough ] && [ -z "$VERIF_SKIP_SELFTEST" ]; then
   # conformance of the instrumentation itself: the repository's own tests on the
   # instrumented copy with the shims in pass-through mode
   ( cd "$SCR/src" && go test -vet=off -count=1 -timeout 20m . > "$SCR/selftest.log" 2>&1 ) || {
     echo "INFRASTRUCTURE: repository tests fail on the instrumented copy (pass-through mode)" >&2; tail -20 "$SCR/selftest.log" >&2; exit 2; }
 fi
-"$SCR/vcheck" -prop "$ID" -tier "$TIER" -hooks "${HOOKS:-0}" -evidence "$PWD/evidence/$ID.json" -replays "$PWD/replays" -known "$PWD/known_findings.json"
+"$SCR/vcheck" -prop "$ID" -tier "$TIER" -hooks "${HOOKS:-0}" -evidence "$EVID/$ID.json" -replays "$REPL" -known "$PWD/known_findings.json"
